@@ -134,11 +134,18 @@ class C18(Oracle):
         for local in BARE:
             # "the URI x denotes" is what the container itself resolves x to (whether that is
             # the right URI is C03's business, not C18's)
-            q = c.valid_qualified_name(local)
-            d = None if q is None else q.namespace
+            own_default = c.get_default_namespace()
+            if own_default is not None:
+                # the container shows a default namespace of its own: a bare name denotes
+                # <that namespace> + local, whatever any internal cache says
+                d = own_default
+                exp = by_uri.get(own_default.uri + local, [])
+            else:
+                q = c.valid_qualified_name(local)
+                d = None if q is None else q.namespace
+                exp = [] if q is None else by_uri.get(q.uri, [])
             got = c.get_record(local)
             self.count("lookups_bare")
-            exp = [] if q is None else by_uri.get(q.uri, [])
             if exp:
                 self.probe("bare_lookup_hit")
             if not same_objects(list(got or []), exp):
